@@ -1,507 +1,11 @@
-// Extracted facts for C08: ordered file operations of sealing / release, error-propagation facts of the block
-// generators and of every `if err != nil` site on the sealing path, the loader's decision conditions, file suffixes.
+// Extracted facts for C08 (see package sealfacts).
 package main
 
 import (
-	"fmt"
-	"go/ast"
-	"go/token"
-	"strings"
-
 	"verifextract/lib"
+	"verifextract/sealfacts"
 )
 
-// errSite describes one `if ... err != nil { ... }` statement.
-type errSite struct {
-	cond       string
-	propagates bool // the body ends in a return whose last result is not the literal nil (or in a panic / Fatal)
-	line       int
-}
-
-func isErrNotNil(e ast.Expr) bool {
-	found := false
-	ast.Inspect(e, func(n ast.Node) bool {
-		if b, ok := n.(*ast.BinaryExpr); ok && b.Op == token.NEQ {
-			if id, ok := b.Y.(*ast.Ident); ok && id.Name == "nil" {
-				if x, ok := b.X.(*ast.Ident); ok && strings.Contains(strings.ToLower(x.Name), "err") {
-					found = true
-				}
-			}
-		}
-		return true
-	})
-	return found
-}
-
-func errSites(f *lib.File, body ast.Node, skipFuncLits bool) []errSite {
-	var res []errSite
-	ast.Inspect(body, func(n ast.Node) bool {
-		if _, ok := n.(*ast.FuncLit); ok && skipFuncLits {
-			return false
-		}
-		x, ok := n.(*ast.IfStmt)
-		if !ok || !isErrNotNil(x.Cond) {
-			return true
-		}
-		s := errSite{cond: f.Render(x.Cond), line: f.Line(x)}
-		if x.Init != nil {
-			s.cond = f.Render(x.Init) + "; " + s.cond
-		}
-		if len(x.Body.List) > 0 {
-			switch last := x.Body.List[len(x.Body.List)-1].(type) {
-			case *ast.ReturnStmt:
-				if len(last.Results) > 0 {
-					r := last.Results[len(last.Results)-1]
-					if id, ok := r.(*ast.Ident); !ok || id.Name != "nil" {
-						s.propagates = true
-					}
-				}
-			case *ast.ExprStmt:
-				c := f.Render(last.X)
-				if strings.HasPrefix(c, "panic(") || strings.HasPrefix(c, "logger.Fatal(") || strings.HasPrefix(c, "logger.Panic(") {
-					s.propagates = true
-				}
-			}
-		}
-		res = append(res, s)
-		return true
-	})
-	return res
-}
-
-func allProp(ss []errSite) bool {
-	for _, s := range ss {
-		if !s.propagates {
-			return false
-		}
-	}
-	return true
-}
-
-func keepCalls(f *lib.File, body ast.Node, keep ...string) []string {
-	return lib.Filter(f.Calls(body), func(c string) bool {
-		for _, k := range keep {
-			if c == k || (strings.HasPrefix(k, ".") && strings.HasSuffix(c, k)) {
-				return true
-			}
-		}
-		return false
-	})
-}
-
-// guarded lists, in source order, "<rendered if condition> => <call>" for calls directly inside an if body, or "=> call" otherwise
-func guardedCalls(f *lib.File, body *ast.BlockStmt, keep ...string) []string {
-	var res []string
-	for _, st := range body.List {
-		guard := ""
-		var n ast.Node = st
-		if x, ok := st.(*ast.IfStmt); ok && x.Else == nil {
-			guard = f.Render(x.Cond)
-			n = x.Body
-		}
-		for _, c := range keepCalls(f, n, keep...) {
-			res = append(res, guard+" => "+c)
-		}
-	}
-	return res
-}
-
 func main() {
-	lib.Main("C08", func(r lib.Repo, e *lib.Emitter) {
-		// ---------------------------------------------------------------- suffixes
-		for _, c := range []struct{ lean, goName string }{
-			{"sufDocs", "DocsFileSuffix"}, {"sufDocsDel", "DocsDelFileSuffix"}, {"sufSdocs", "SdocsFileSuffix"},
-			{"sufSdocsTmp", "SdocsTmpFileSuffix"}, {"sufSdocsDel", "SdocsDelFileSuffix"}, {"sufIndex", "IndexFileSuffix"},
-			{"sufIndexTmp", "IndexTmpFileSuffix"}, {"sufIndexDel", "IndexDelFileSuffix"}, {"sufMeta", "MetaFileSuffix"},
-		} {
-			if v, err := r.ConstString("consts", c.goName); err != nil {
-				e.Missing(c.lean, err)
-			} else {
-				e.Str(c.lean, v, "consts."+c.goName)
-			}
-		}
-
-		// ---------------------------------------------------------------- frac/active_sealer.go
-		if f, err := r.Load("frac/active_sealer.go"); err != nil {
-			e.Missing("active_sealer.go", err)
-		} else {
-			if fd := f.Func("", "Seal"); fd == nil {
-				e.Missing("sealCalls", "frac.Seal not found")
-			} else {
-				e.Strs("sealCalls", keepCalls(f, fd.Body, "os.Create", "indexFile.Seek", "writeSealedFraction", "syncRename", "util.MustSyncPath", "os.Remove", "os.Rename"),
-					"frac.Seal: file operations and sub-steps in source order")
-				var args []string
-				ast.Inspect(fd.Body, func(n ast.Node) bool {
-					if c, ok := n.(*ast.CallExpr); ok {
-						switch f.Render(c.Fun) {
-						case "os.Create", "syncRename":
-							args = append(args, f.Render(c.Fun)+" "+f.Render(c.Args[len(c.Args)-1]))
-						}
-					}
-					return true
-				})
-				e.Strs("sealNames", args, "frac.Seal: the file names created / renamed to")
-				ss := errSites(f, fd.Body, true)
-				e.Bool("sealPropagates", allProp(ss) && len(ss) > 0, fmt.Sprintf("frac.Seal: all %d `err != nil` sites return the error", len(ss)))
-				// the error of writeSealedFraction is checked before syncRename is reached
-				checked := false
-				for i, st := range fd.Body.List {
-					if a, ok := st.(*ast.AssignStmt); ok && strings.Contains(f.Render(a), "writeSealedFraction(") && i+1 < len(fd.Body.List) {
-						if x, ok := fd.Body.List[i+1].(*ast.IfStmt); ok && f.Render(x.Cond) == "err != nil" && allProp(errSites(f, x, true)) {
-							checked = true
-						}
-					}
-				}
-				e.Bool("sealChecksWriteError", checked, "frac.Seal: `preloaded, err := writeSealedFraction(..)` is directly followed by `if err != nil { return nil, err }`")
-			}
-			if fd := f.Func("", "syncRename"); fd == nil {
-				e.Missing("syncRenameCalls", "syncRename not found")
-			} else {
-				e.Strs("syncRenameCalls", keepCalls(f, fd.Body, "f.Sync", "os.Rename", "f.Close", "os.OpenFile", "os.Remove"), "syncRename: operations in source order")
-				ss := errSites(f, fd.Body, true)
-				e.Bool("syncRenamePropagates", allProp(ss) && len(ss) > 0, fmt.Sprintf("syncRename: all %d `err != nil` sites return the error", len(ss)))
-			}
-			if fd := f.Func("", "writeSortedDocs"); fd == nil {
-				e.Missing("writeSortedDocsCalls", "writeSortedDocs not found")
-			} else {
-				e.Strs("writeSortedDocsCalls", keepCalls(f, fd.Body, "os.Create", "writeDocsInOrder", "syncRename", "os.Rename", "os.Remove"), "writeSortedDocs: operations in source order")
-				var args []string
-				ast.Inspect(fd.Body, func(n ast.Node) bool {
-					if c, ok := n.(*ast.CallExpr); ok {
-						switch f.Render(c.Fun) {
-						case "os.Create", "syncRename":
-							args = append(args, f.Render(c.Fun)+" "+f.Render(c.Args[len(c.Args)-1]))
-						}
-					}
-					return true
-				})
-				e.Strs("writeSortedDocsNames", args, "writeSortedDocs: the file names created / renamed to")
-				ss := errSites(f, fd.Body, true)
-				e.Bool("writeSortedDocsPropagates", allProp(ss) && len(ss) > 0, fmt.Sprintf("writeSortedDocs: all %d `err != nil` sites return the error", len(ss)))
-			}
-			if fd := f.Func("", "writeSealedFraction"); fd == nil {
-				e.Missing("writeSealedCalls", "writeSealedFraction not found")
-			} else {
-				e.Strs("writeSealedCalls", keepCalls(f, fd.Body, "writeSortedDocs", "writer.writeInfoBlock", "writer.writeTokensBlocks", "writer.writeTokenTableBlocks",
-					"writer.writePositionsBlock", "writer.writeIDsBlocks", "writer.writeLIDsBlocks", "writer.WriteRegistryBlock"),
-					"writeSealedFraction: sorted docs and index sections in source order")
-				guard := ""
-				ast.Inspect(fd.Body, func(n ast.Node) bool {
-					if x, ok := n.(*ast.IfStmt); ok && strings.Contains(f.Render(x.Body), "writeSortedDocs(") && guard == "" {
-						guard = f.Render(x.Cond)
-					}
-					return true
-				})
-				e.Str("writeSortedDocsGuard", guard, "writeSealedFraction: condition under which writeSortedDocs runs")
-				ss := errSites(f, fd.Body, true)
-				e.Bool("writeSealedPropagates", allProp(ss) && len(ss) >= 8, fmt.Sprintf("writeSealedFraction: all %d `err != nil` sites return an error", len(ss)))
-			}
-			ok, n := true, 0
-			for _, fn := range [][2]string{{"", "writeDocsInOrder"}, {"", "writeDocBlocksInOrder"}, {"docBlocksWriter", "WriteDoc"}, {"docBlocksWriter", "flushBlock"},
-				{"docBlocksWriter", "compressWriteBlock"}, {"docBlocksWriter", "Flush"}} {
-				fd := f.Func(fn[0], fn[1])
-				if fd == nil {
-					e.Missing("sdocsWriterPropagates", fn[1]+" not found")
-					ok = false
-					continue
-				}
-				ss := errSites(f, fd.Body, false)
-				n += len(ss)
-				ok = ok && allProp(ss)
-			}
-			e.Bool("sdocsWriterPropagates", ok && n > 0, fmt.Sprintf("writeDocsInOrder .. docBlocksWriter.Flush: all %d `err != nil` sites return the error", n))
-		}
-
-		// ---------------------------------------------------------------- generators
-		if f, err := r.Load("frac/disk_blocks_producer.go"); err != nil {
-			e.Missing("disk_blocks_producer.go", err)
-		} else {
-			for _, g := range []struct{ lean, fn string }{
-				{"tokensGenPropagates", "getTokensBlocksGenerator"}, {"tokenTableGenPropagates", "getTokenTableBlocksGenerator"},
-				{"idsGenPropagates", "getIDsBlocksGenerator"}, {"lidsGenPropagates", "getLIDsBlockGenerator"},
-			} {
-				fd := f.Func("DiskBlocksProducer", g.fn)
-				if fd == nil {
-					e.Missing(g.lean, g.fn+" not found")
-					continue
-				}
-				var push []errSite
-				for _, s := range errSites(f, fd.Body, false) {
-					if strings.Contains(s.cond, "push(") {
-						push = append(push, s)
-					}
-				}
-				if len(push) == 0 {
-					e.Missing(g.lean, g.fn+": no `if err := push(..); err != nil` site")
-					continue
-				}
-				var where []string
-				for _, s := range push {
-					where = append(where, fmt.Sprintf("line %d: %v", s.line, s.propagates))
-				}
-				e.Bool(g.lean, allProp(push), fmt.Sprintf("%s: every `if err := push(..); err != nil` returns the error (%s)", g.fn, strings.Join(where, ", ")))
-			}
-		}
-
-		// ---------------------------------------------------------------- section writers and block writer
-		type grp struct {
-			lean, file string
-			recv       string
-			fns        []string
-		}
-		for _, g := range []grp{
-			{"sectionWritersPropagate", "frac/disk_blocks_writer.go", "DiskBlocksWriter", []string{"writeInfoBlock", "writePositionsBlock", "writeIDsBlocks", "writeTokensBlocks", "writeTokenTableBlocks", "writeLIDsBlocks"}},
-			{"blocksWriterPropagates", "disk/blocks_writer.go", "BlocksWriter", []string{"WriteBlock", "WriteBlocksRegistry"}},
-			{"blockFormerPropagates", "disk/block_former.go", "BlockFormer", []string{"FlushForced"}},
-			{"bufWriterPropagates", "bytespool/writer.go", "Writer", []string{"Write", "Flush", "writeCheckShort"}},
-		} {
-			f, err := r.Load(g.file)
-			if err != nil {
-				e.Missing(g.lean, err)
-				continue
-			}
-			ok, n := true, 0
-			for _, fn := range g.fns {
-				fd := f.Func(g.recv, fn)
-				if fd == nil {
-					e.Missing(g.lean, fn+" not found")
-					ok = false
-					continue
-				}
-				ss := errSites(f, fd.Body, false)
-				n += len(ss)
-				ok = ok && allProp(ss)
-			}
-			e.Bool(g.lean, ok && n > 0, fmt.Sprintf("%s %v: all %d `err != nil` sites return the error", g.file, g.fns, n))
-		}
-		if f, err := r.Load("disk/blocks_writer.go"); err == nil {
-			if fd := f.Func("BlocksWriter", "WriteBlock"); fd != nil {
-				e.Strs("writeBlockCalls", keepCalls(f, fd.Body, "w.writeSeeker.Seek", "w.writeSeeker.Write"), "BlocksWriter.WriteBlock: calls on the output")
-			} else {
-				e.Missing("writeBlockCalls", "WriteBlock not found")
-			}
-			if fd := f.Func("BlocksWriter", "WriteBlocksRegistry"); fd != nil {
-				e.Strs("writeRegistryCalls", keepCalls(f, fd.Body, "w.writeSeeker.Seek", "w.writeSeeker.Write"), "BlocksWriter.WriteBlocksRegistry: calls on the output")
-			} else {
-				e.Missing("writeRegistryCalls", "WriteBlocksRegistry not found")
-			}
-		}
-
-		// ---------------------------------------------------------------- proxyFrac.Seal and Active.Release
-		if f, err := r.Load("fracmanager/proxy_frac.go"); err != nil {
-			e.Missing("proxy_frac.go", err)
-		} else if fd := f.Func("proxyFrac", "Seal"); fd == nil {
-			e.Missing("proxySealCalls", "proxyFrac.Seal not found")
-		} else {
-			e.Strs("proxySealCalls", keepCalls(f, fd.Body, "frac.Seal", "f.fp.NewSealedPreloaded", "active.Release", "active.Suicide"), "proxyFrac.Seal: order of sealing, publishing and release")
-			checked := false
-			for i, st := range fd.Body.List {
-				if a, ok := st.(*ast.AssignStmt); ok && strings.Contains(f.Render(a), "frac.Seal(") && i+1 < len(fd.Body.List) {
-					if x, ok := fd.Body.List[i+1].(*ast.IfStmt); ok && f.Render(x.Cond) == "err != nil" && allProp(errSites(f, x, true)) {
-						checked = true
-					}
-				}
-			}
-			e.Bool("proxySealChecksError", checked, "proxyFrac.Seal: `preloaded, err := frac.Seal(..)` is directly followed by `if err != nil { return nil, err }`")
-		}
-		if f, err := r.Load("frac/active.go"); err != nil {
-			e.Missing("active.go", err)
-		} else {
-			if fd := f.Func("Active", "Release"); fd == nil {
-				e.Missing("releaseCalls", "Active.Release not found")
-			} else {
-				e.Strs("releaseCalls", guardedCalls(f, fd.Body, "f.removeMetaFile", "f.removeDocsFiles", "os.Remove", "os.Rename"), "Active.Release: guarded removals in source order")
-			}
-			for _, x := range [][2]string{{"removeMetaFileCalls", "removeMetaFile"}, {"removeDocsFilesCalls", "removeDocsFiles"}} {
-				if fd := f.Func("Active", x[1]); fd == nil {
-					e.Missing(x[0], x[1]+" not found")
-				} else {
-					var ops []string
-					ast.Inspect(fd.Body, func(n ast.Node) bool {
-						if c, ok := n.(*ast.CallExpr); ok && (f.Render(c.Fun) == "os.Remove" || f.Render(c.Fun) == "os.Rename") {
-							ops = append(ops, f.Render(c))
-						}
-						return true
-					})
-					e.Strs(x[0], ops, "Active."+x[1]+": removals")
-				}
-			}
-			if fd := f.Func("", "NewActive"); fd != nil {
-				var ops []string
-				ast.Inspect(fd.Body, func(n ast.Node) bool {
-					if c, ok := n.(*ast.CallExpr); ok && f.Render(c.Fun) == "mustOpenFile" {
-						ops = append(ops, f.Render(c.Args[0]))
-					}
-					return true
-				})
-				e.Strs("newActiveFiles", ops, "NewActive: files opened (docsFile, metaFile)")
-			} else {
-				e.Missing("newActiveFiles", "NewActive not found")
-			}
-		}
-
-		// ---------------------------------------------------------------- loader
-		if f, err := r.Load("fracmanager/loader.go"); err != nil {
-			e.Missing("loader.go", err)
-		} else {
-			if fd := f.Func("loader", "makeInfos"); fd == nil {
-				e.Missing("makeInfosSkip", "makeInfos not found")
-			} else {
-				var skip, cases []string
-				ast.Inspect(fd.Body, func(n ast.Node) bool {
-					switch x := n.(type) {
-					case *ast.IfStmt:
-						for _, s := range x.Body.List {
-							if b, ok := s.(*ast.BranchStmt); ok && b.Tok == token.CONTINUE {
-								skip = append(skip, f.Render(x.Cond))
-							}
-						}
-					case *ast.CaseClause:
-						if len(x.List) == 0 {
-							cases = append(cases, "default => "+f.Render(x.Body[0]))
-						} else if len(x.Body) == 1 {
-							cases = append(cases, f.Render(x.List[0])+" => "+f.Render(x.Body[0]))
-						} else {
-							cases = append(cases, f.Render(x.List[0])+" => ?")
-						}
-					}
-					return true
-				})
-				e.Strs("makeInfosSkip", skip, "makeInfos: files skipped (continue)")
-				for i, c := range cases {
-					if strings.HasPrefix(c, "default => logger.Fatal(") {
-						cases[i] = "default => logger.Fatal"
-					}
-				}
-				e.Strs("makeInfosCases", cases, "makeInfos: switch suffix")
-			}
-			if fd := f.Func("loader", "filterInfos"); fd == nil {
-				e.Missing("filterInfosRules", "filterInfos not found")
-			} else {
-				var rules []string
-				ast.Inspect(fd.Body, func(n ast.Node) bool {
-					rs, ok := n.(*ast.RangeStmt)
-					if !ok {
-						return true
-					}
-					for _, st := range rs.Body.List {
-						switch x := st.(type) {
-						case *ast.IfStmt:
-							c := f.Render(x.Cond)
-							if c == "info == nil" {
-								continue
-							}
-							act := "?"
-							body := f.Render(x.Body)
-							switch {
-							case strings.Contains(body, "removeFractionFiles(info.base)") && strings.Contains(body, "continue"):
-								act = "removeFractionFiles; continue"
-							case strings.Contains(body, "infoList = append(infoList, info)") && strings.Contains(body, "continue"):
-								act = "keep; continue"
-							case strings.Contains(body, "continue") && !strings.Contains(body, "append("):
-								act = "continue"
-							}
-							rules = append(rules, c+" => "+act)
-						case *ast.ExprStmt:
-							if strings.HasPrefix(f.Render(x.X), "logger.Fatal(") {
-								rules = append(rules, "otherwise => logger.Fatal")
-							}
-						}
-					}
-					return false
-				})
-				e.Strs("filterInfosRules", rules, "filterInfos: rules in source order")
-			}
-			if fd := f.Func("loader", "load"); fd == nil {
-				e.Missing("loadBranches", "load not found")
-			} else {
-				var br []string
-				var walk func(x *ast.IfStmt, pre string)
-				describe := func(b *ast.BlockStmt) string {
-					var acts []string
-					for _, st := range b.List {
-						s := f.Render(st)
-						switch {
-						case strings.HasPrefix(s, "if info.hasMeta { removeFile("):
-							acts = append(acts, "if hasMeta removeFile(meta)")
-						case strings.HasPrefix(s, "if info.hasDocs { removeFile("):
-							acts = append(acts, "if hasDocs removeFile(docs)")
-						case strings.Contains(s, "l.loadSealedFrac("):
-							acts = append(acts, "loadSealedFrac")
-						case strings.Contains(s, "l.fracProvider.NewActive("):
-							acts = append(acts, "NewActive")
-						case strings.HasPrefix(s, "fracs = append("), strings.HasPrefix(s, "actives = append("):
-						case strings.HasPrefix(s, "if "):
-						default:
-							acts = append(acts, "?"+s)
-						}
-					}
-					return strings.Join(acts, "; ")
-				}
-				walk = func(x *ast.IfStmt, pre string) {
-					c := f.Render(x.Cond)
-					br = append(br, pre+c+" => "+describe(x.Body))
-					for _, st := range x.Body.List {
-						if y, ok := st.(*ast.IfStmt); ok && !strings.HasPrefix(f.Render(y.Cond), "info.hasMeta") && !strings.HasPrefix(f.Render(y.Cond), "info.hasDocs") {
-							walk(y, pre+c+" && ")
-						}
-					}
-					switch el := x.Else.(type) {
-					case *ast.BlockStmt:
-						inner := false
-						for _, st := range el.List {
-							if y, ok := st.(*ast.IfStmt); ok {
-								walk(y, pre+"!("+c+") && ")
-								inner = true
-							}
-						}
-						if !inner {
-							br = append(br, pre+"!("+c+") => "+describe(el))
-						}
-					case *ast.IfStmt:
-						walk(el, pre+"!("+c+") && ")
-					}
-				}
-				ast.Inspect(fd.Body, func(n ast.Node) bool {
-					if rs, ok := n.(*ast.RangeStmt); ok && f.Render(rs.X) == "infosList" {
-						for _, st := range rs.Body.List {
-							if x, ok := st.(*ast.IfStmt); ok && strings.Contains(f.Render(x.Cond), "info.has") {
-								walk(x, "")
-							}
-						}
-						return false
-					}
-					return true
-				})
-				e.Strs("loadBranches", br, "loader.load: per-fraction branches")
-			}
-			if fd := f.Func("", "removeFractionFiles"); fd == nil {
-				e.Missing("removeFractionFilesOrder", "removeFractionFiles not found")
-			} else {
-				var ops []string
-				ast.Inspect(fd.Body, func(n ast.Node) bool {
-					if c, ok := n.(*ast.CallExpr); ok && f.Render(c.Fun) == "removeFile" {
-						ops = append(ops, f.Render(c.Args[0]))
-					}
-					return true
-				})
-				e.Strs("removeFractionFilesOrder", ops, "removeFractionFiles: removals in source order")
-			}
-		}
-		if f, err := r.Load("frac/sealed.go"); err != nil {
-			e.Missing("sealed.go", err)
-		} else if fd := f.Func("Sealed", "openDocs"); fd == nil {
-			e.Missing("openDocsOrder", "openDocs not found")
-		} else {
-			var ops []string
-			ast.Inspect(fd.Body, func(n ast.Node) bool {
-				if c, ok := n.(*ast.CallExpr); ok && f.Render(c.Fun) == "os.Open" {
-					ops = append(ops, f.Render(c.Args[0]))
-				}
-				return true
-			})
-			e.Strs("openDocsOrder", ops, "Sealed.openDocs: files tried in order")
-		}
-	}, "consts/consts.go", "frac/active_sealer.go", "frac/disk_blocks_producer.go", "frac/disk_blocks_writer.go", "disk/blocks_writer.go",
-		"disk/block_former.go", "bytespool/writer.go", "fracmanager/proxy_frac.go", "frac/active.go", "fracmanager/loader.go", "frac/sealed.go")
+	lib.Main("C08", sealfacts.Emit, sealfacts.Sources...)
 }
